@@ -274,3 +274,79 @@ def value_oracle(fn: ast.AST, var: str, value: object) -> Callable[[Node], Optio
         return None
 
     return decide
+
+
+def untupled(fi: FuncInfo) -> FuncInfo:
+    """FuncInfo over a copy of the function in which ``a, b = x, y`` (tuple display on both sides, same length, no
+    target read on the right) is written as ``a = x; b = y``.  Behaviour preserving; lets dataflow rules treat the
+    components separately."""
+    import copy
+
+    node = copy.deepcopy(fi.node)
+
+    class T(ast.NodeTransformer):
+        def _split(self, st):
+            if isinstance(st, ast.Assign) and len(st.targets) == 1 and isinstance(st.targets[0], ast.Tuple) and isinstance(st.value, ast.Tuple) and len(st.targets[0].elts) == len(st.value.elts) and all(isinstance(t, ast.Name) for t in st.targets[0].elts):
+                tnames = {t.id for t in st.targets[0].elts}
+                if not (tnames & q.names_in(st.value)):
+                    return [ast.copy_location(ast.Assign(targets=[t], value=v), st) for t, v in zip(st.targets[0].elts, st.value.elts)]
+            return [st]
+
+        def generic_visit(self, n):
+            super().generic_visit(n)
+            for fld in ("body", "orelse", "finalbody"):
+                b = getattr(n, fld, None)
+                if isinstance(b, list) and b and isinstance(b[0], ast.stmt):
+                    nb = []
+                    for st in b:
+                        nb.extend(self._split(st))
+                    setattr(n, fld, nb)
+            return n
+
+    node = T().visit(node)
+    ast.fix_missing_locations(node)
+    return FuncInfo(fi.module, fi.qualname, node, fi.cls, fi.parent)
+
+
+def unknown_private_calls(fi: FuncInfo, known: Iterable[str] = ()) -> List[str]:
+    """Names of private (single leading underscore) functions/methods defined in ``fi``'s module that ``fi``
+    references (calls, passes as a callback, binds with functools.partial) and that are not in ``known``."""
+    m = fi.module
+    known = set(known)
+    private = {}
+    for qn, f in m.funcs.items():
+        nm = f.name
+        if nm.startswith("_") and not nm.startswith("__") and ".<locals>." not in qn:
+            private.setdefault(nm, []).append(qn)
+    out = set()
+    for n in ast.walk(fi.node):
+        nm = None
+        if isinstance(n, ast.Attribute) and isinstance(n.ctx, ast.Load) and n.attr in private and isinstance(n.value, ast.Name) and (n.value.id in ("self", "cls") or n.value.id in m.classes):
+            nm = n.attr
+        elif isinstance(n, ast.Name) and isinstance(n.ctx, ast.Load) and n.id in private and any("." not in qn for qn in private[n.id]):
+            nm = n.id
+        if nm and nm not in known and nm != fi.name:
+            out.add(nm)
+    return sorted(out)
+
+
+def guard_obligations(ck, known: Iterable[str] = ()):
+    """Rule 3 of the robustness rounds, enforced centrally: a failed obligation located in function F becomes an
+    AnalysisError (not a VIOLATION) when F delegates to a private helper of its module that the rule does not
+    follow -- the required statement may simply have moved there.  ``known``: private helpers the property's
+    rules analyse in their own right (or that are irrelevant to it)."""
+    if getattr(ck, "_g8_guarded", False):
+        return ck
+    orig = ck.ob
+    known = set(known)
+
+    def ob(rule, fi, node, ok, what, construct=None, path=None, file=None):
+        if not ok and fi is not None:
+            unk = unknown_private_calls(fi, known)
+            if unk:
+                raise AnalysisError("%s: '%s' is not established here and the function delegates to %s, which the rule does not follow (function splitting?)" % (fi.qualname, what[:120], ", ".join(unk)))
+        return orig(rule, fi, node, ok, what, construct=construct, path=path, file=file)
+
+    ck.ob = ob
+    ck._g8_guarded = True
+    return ck
